@@ -8,6 +8,7 @@ implementation's observations against the Rust framework's own actions (`mon C20
 import glob
 import os
 import re
+from tiers import pick
 
 FFI_FILES = ["crates/maybenot-ffi/src/lib.rs", "crates/maybenot-ffi/src/ffi.rs", "crates/maybenot-ffi/src/error.rs",
              "crates/maybenot-ffi/maybenot.h"]
@@ -84,7 +85,7 @@ def run_ffi(pid, tier, seed, replay, ctx):
                 mons.append((f"{pid}:crash", f"the C API crashed the harness process (exit status {rc}) on corpus file {os.path.basename(c)}\n" + data.decode("utf-8", "replace")))
             texts.append(("corpus:" + os.path.basename(c), out))
         for kind, nq, nt in GENS:
-            n = nq if tier == "quick" else nt
+            n = pick(tier, nq, nt)
             rc, out = sh([ctx["HBIN"], "ffi-gen", "--kind", kind, "--seed", str(seed), "--cases", str(n)], timeout=7200)
             if rc != 0:
                 i, dry = locate_crash(sh, ctx["HBIN"], kind, seed, n)
